@@ -22,6 +22,9 @@ package_info buf =
 package_info dict =
   type Dict<K, V>
 
+package_info box =
+  type Box<T>
+
 package_info _ =
   type Loc
 
@@ -42,7 +45,7 @@ type GUni<T> =
 
 `
 
-const c15Env = "((buf.Buffer ext buf.Buffer 0) (dict.Dict ext dict.Dict 2) (Loc ext Loc 0) (Rec record Rec 0) (GRec record GRec 1) (Uni union Uni 0) (GUni union GUni 1))"
+const c15Env = "((buf.Buffer ext buf.Buffer 0) (dict.Dict ext dict.Dict 2) (box.Box ext box.Box 1) (Loc ext Loc 0) (Rec record Rec 0) (GRec record GRec 1) (Uni union Uni 0) (GUni union GUni 1))"
 
 type c15Ty struct {
 	kind  string // base unit slice tuple func named
@@ -56,7 +59,7 @@ type c15Named struct {
 }
 
 var c15Bases = []string{"int", "string", "bool", "float", "any"}
-var c15Nameds = []c15Named{{"buf.Buffer", 0}, {"dict.Dict", 2}, {"Loc", 0}, {"Rec", 0}, {"GRec", 1}, {"Uni", 0}, {"GUni", 1}}
+var c15Nameds = []c15Named{{"buf.Buffer", 0}, {"dict.Dict", 2}, {"box.Box", 1}, {"Loc", 0}, {"Rec", 0}, {"GRec", 1}, {"Uni", 0}, {"GUni", 1}}
 
 // precedence level of the outermost constructor: 0 func, 1 tuple, 2 slice, 3 atom
 func (t *c15Ty) level() int {
@@ -390,6 +393,7 @@ func c15Enum(depth int, allowUnit bool, f func(*c15Ty)) {
 	for _, a := range subs {
 		f(&c15Ty{kind: "slice", elems: []*c15Ty{a}})
 		f(&c15Ty{kind: "named", name: "GRec", elems: []*c15Ty{a}})
+		f(&c15Ty{kind: "named", name: "box.Box", elems: []*c15Ty{a}}) // an EXTERNAL generic with one argument
 		for _, b := range subs {
 			f(&c15Ty{kind: "tuple", elems: []*c15Ty{a, b}})
 			f(&c15Ty{kind: "named", name: "dict.Dict", elems: []*c15Ty{a, b}})
